@@ -1,4 +1,4 @@
-import XdistProofs.Sys.Acct
+import XdistProofs.Sys.AcctReach
 /-!
   The completions the controller has handled, in terms of what the workers did: for a worker that was never written off
   because of an undecodable message, the completions still on their way to the controller are a suffix of the tests it has
